@@ -19,7 +19,7 @@ def generate(tier, seed):
         d = K["rbac_dom" if dom else "rbac"]
         sp = spec_of(d)
         dm = "d1" if dom else "-"
-        n = 120 if tier == "quick" else 2500
+        n = 250 if tier == "quick" else 2500
         for _ in range(n):
             links = set()
             for _ in range(rnd.randint(0, 6)):
@@ -59,17 +59,47 @@ def generate(tier, seed):
             steps += q
             # a delete call, then everything again
             u = rnd.choice(NAMES)
-            dl = rnd.choice(["du:%s" % u, "dra:%s" % u] + (["dp:%s" % enc_rule(rnd.choice(PERMS))] if not dom else []))
+            dl = rnd.choice(["du:%s" % u, "dra:%s" % u, "dpsf:%s" % u, "drs:%s:%s" % (u, dm)] + (["dp:%s" % enc_rule(rnd.choice(PERMS))] if not dom else []))
             steps += [dl] + q
             cases.append(case("eng", sp, adapter_M(), "-", steps))
             dist["domain" if dom else "plain"] += 1
+    # exhaustive small scope: every set of <= 3 links over 3 names (self links included), one permission per name,
+    # every delete call from each state
+    N3 = ["alice", "bob", "admin"]
+    pairs = [(a, b) for a in N3 for b in N3]
+    dist["exhaustive_small"] = 0
+    for dom in (False, True):
+        d = K["rbac_dom" if dom else "rbac"]
+        sp = spec_of(d)
+        dm = "d1" if dom else "-"
+        dd = ["d1"] if dom else []
+        q = ["?ga:p", "?ga:g"]
+        for u in N3 + ["nobody"]:
+            q += ["?ir:%s:%s" % (u, dm), "?ip:%s:%s" % (u, dm), "?rf:%s:%s" % (u, dm), "?uf:%s:%s" % (u, dm), "?hr:%s:admin:%s" % (u, dm)]
+            for pm in PERMS[:2]:
+                q.append(Q_e([u] + dd + pm))
+        if not dom:
+            q += ["?iu:%s" % enc_rule(pm) for pm in PERMS[:2]]
+        dels = ["du:alice", "du:admin", "dra:admin", "dra:alice", "dpsf:admin", "drs:alice:%s" % dm, "drs:bob:%s" % dm] + \
+               (["dp:%s" % enc_rule(PERMS[0])] if not dom else [])
+        sets = [ls for k in range(0, 4) for ls in itertools.combinations(pairs, k)]
+        if tier == "quick":
+            sets = rnd.sample(sets, 60)
+        for ls in sets:
+            lines = [["g", "g", a, b] + dd for a, b in ls] + [["p", "p", "admin"] + dd + PERMS[0], ["p", "p", "alice"] + dd + PERMS[1],
+                                                            ["p", "p", "bob"] + dd + PERMS[0]]
+            if dom:
+                lines += [["g", "g", "bob", "admin", "d2"], ["p", "p", "admin", "d2"] + PERMS[1]]
+            for dl in (dels if tier != "quick" else rnd.sample(dels, 3)):
+                cases.append(case("eng", sp, adapter_M(lines), "-", q + [dl] + q))
+                dist["exhaustive_small"] += 1
     return {
         "cases": cases,
         "exhaustive": False,
         "rule": ("RBAC (and RBAC with domains) allow-override models; random link sets over 5 names incl. cycles, diamonds and self-referential users, depth far "
                  "below the limit, random permissions, the configuration reached by a shuffled management history with a removal and re-add; then for every "
                  "name: implicit roles, implicit permissions, roles/users listings, the decision for every permission; implicit users per permission; then one "
-                 "of delete_user / delete_role / delete_permission and everything again. non-trivial = some implicit role set has >= 2 members"),
+                 "of delete_user / delete_role / delete_permission / delete_permissions_for_user / delete_roles_for_user and everything again; plus every link set of <= 3 links over 3 names (quick: a sample) with every delete call. non-trivial = some implicit role set has >= 2 members"),
         "distribution": dist,
     }
 
